@@ -131,10 +131,27 @@ def scripts_crash(tier, rng, prefix):
             if bi % 3 == 0:
                 for k in range(0, 7 if tier == "quick" else 12):
                     named.append((f"{prefix}b{bi}p{p}e{k}", b[:p] + ["w ok"] * k + ["w eio", "widle"]))
+    # a large unsynced tail (one payload of more than 64 KiB, or a batch of that size): written by the
+    # worker, not yet synced, then lost as a whole or zero-filled from its record boundary
+    big = []
+    for j in range(2 if tier == "quick" else 8):
+        sz = rng.choice([65600, 70001, 100000])
+        if j % 2 == 0:
+            tail = [f"app 1,2,x{sz}:{rng.below(200)}"]
+        else:
+            tail = ["app " + " ".join(f"1,{2 + x},x700:{x}" for x in range(sz // 700 + 2))]
+        big.append((f"{prefix}big{j}", [rng.choice(["cfg", "cfg mr=5", "cfg ms=200000"]), "open", "app 1,0,aa 1,1,bb", "flush 1",
+                                       "widle"] + tail + ["flush 2", "w ok", "w ok"]))
+    named += big
     lays = layouts(named)
     out = []
     for name, pre in named:
         lay = lays.get(name, [])
+        if "big" in name:
+            # the whole unsynced tail of the newest file zero-filled, from every boundary at or above durable
+            (i, ln, du, b) = lay[-1] if lay else (0, 0, 0, [])
+            for bb in [x for x in b if du <= x < ln][:3]:
+                out.append((f"{name}z{bb}", pre + ["crash", f"fsop zero {i} {bb} {ln - bb}", "fsop settle", "dir", "open"] + PROBE))
         for k, ops in enumerate(crash_images(rng, lay, 3 if tier == "quick" else 5)):
             out.append((f"{name}i{k}", pre + ["crash"] + ops + ["fsop settle", "dir", "open"] +
                         (PROBE if (k + len(pre)) % 3 else PROBE_B)))
@@ -538,6 +555,15 @@ def oracle_c09(script, ig, mg):
     mgp = mtail[o] if o < len(mtail) else None
     dir_before = tail[o - 1].line if o >= 1 and tail[o - 1].line.startswith("dir ") else None
     dir_after = next((x.line for x in tail[o + 1:] if x.line.startswith("dir ")), None)
+    tr_cfg = 1
+    for l in script[:fi + 1] + script[fi + 1:fi + 3]:
+        if l.startswith("cfg"):
+            m = re.search(r"tr=(\d)", l)
+            tr_cfg = int(m.group(1)) if m else 1
+    if g.line == "open ok" and tr_cfg == 0 and fl[-1].startswith("fsop flip"):
+        # with tail truncation disabled nothing can be taken for a torn tail: an altered byte of a
+        # complete record must make open fail
+        return [("opened-altered-image-with-truncation-disabled", {"fsop": fl[-1], "events": g.evs})]
     if g.line == "open ok":
         # allowed only if nothing was lost: state and entries as written (as the implementation
         # itself reported them right before it was closed)
